@@ -5,6 +5,7 @@ import DispensoVerif.Model.AsyncReq
 import DispensoVerif.Model.Spsc
 import DispensoVerif.Model.Mpmc
 import DispensoVerif.Model.ChaseLev
+import DispensoVerif.Model.RWLock
 
 /-! Handlers of the dvdriver line protocol. Core Lean only. -/
 namespace Driver
@@ -20,6 +21,7 @@ inductive Sess where
   | spsc (K : Nat) (s : Conc.State (Spsc.proto K))
   | mpmc (K : Nat) (s : Conc.State (Mpmc.proto K))
   | chaselev (C : Nat) (s : Conc.State (ChaseLev.proto C))
+  | rwlock (s : Conc.State RWLock.proto)
 
 structure St where
   sess : Sess := .none
@@ -79,6 +81,7 @@ def traceBegin (args : List String) : Sess × String :=
     | some [v] => (.event (Event.init v), "ok")
     | _ => (.failed, "bad-params")
   | "asyncreq" :: _ => (.asyncreq AsyncReq.init, "ok")
+  | "rwlock" :: _ => (.rwlock RWLock.init, "ok")
   | "chaselev" :: rest =>
     match nats rest with
     | some [C] => (.chaselev C (ChaseLev.init C), "ok")
@@ -100,6 +103,10 @@ def traceLine (sess : Sess) (toks : List String) : Sess × String :=
   | .event s =>
     match Trace.acceptLine Event.binding s toks with
     | .ok s' => (.event s', "ok")
+    | .error e => (.failed, "MISMATCH " ++ e)
+  | .rwlock s =>
+    match Trace.acceptLine RWLock.binding s toks with
+    | .ok s' => (.rwlock s', "ok")
     | .error e => (.failed, "MISMATCH " ++ e)
   | .chaselev C s =>
     match Trace.acceptLine (ChaseLev.binding C) s toks with
